@@ -46,6 +46,7 @@ def run(ctx, R, tier):
     R.rule("C09-R5", "createInstance calls exactly one of creator(clazz) / clazz(), once; a creator result of another type raises; one creation per cache miss", floor=5)
     R.rule("C09-R6", "the mode literals tested by _getInstance equal the ones the behavior decorator accepts; anything else raises", floor=2)
 
+    R.rule("C09-R7", "the instance tables are per daemon / per connection: created fresh in __init__, never a class-level or shared dict", floor=2)
     f = ctx.fn(GI)
     cfg = ctx.cfg(f)
     ci = ctx.fn(GI + ".createInstance")
@@ -152,6 +153,14 @@ def run(ctx, R, tier):
     clears = [c for c, _ in ctx.cg.calls_of(cl) if unparse(c.func) == "self.pyroInstances.clear"]
     R.check(bool(resets) or bool(clears), "C09-R3", "SocketConnection.close|drops-session-instances", "closing a connection drops its session instances", cl.loc(),
             "SocketConnection.close no longer resets pyroInstances")
+    # ... and every server type really closes an ended connection, also when the disconnect hook raises (shared with C13-R1/R2)
+    from ..report import Rules
+    from . import c13
+    R13 = Rules("C13")
+    c13.run(ctx, R13, tier)
+    for o in R13.obs:
+        if o.key in ("C13-R1|__call__|close-after-disconnect", "C13-R2|events|disconnect->unregister->close"):
+            R.add("C09-R3", "connection-end|" + o.key.split("|", 1)[1], o.desc + " (close() is what drops the session instances)", o.ok, o.loc, o.detail)
 
     # ---------------------------------------------------------------- R4
     rets = [n for n in cfg.nodes if n.kind == "stmt" and isinstance(n.ast, ast.Return) and cfg.guarded(n, lambda e: edge_has_fact(e, mode_fact("percall")))]
@@ -246,3 +255,8 @@ def run(ctx, R, tier):
     # else branch raises: function exit (fall-through) must not be reachable without return/raise
     ok = not any(e.kind != "exc" for e in cfg.exit.pred if e.src.id in cfg.live() and (e.src.kind != "stmt" or not isinstance(e.src.ast, ast.Return)))
     R.check(ok, "C09-R6", "modes|unknown-raises", "an unknown instance mode raises", f.loc(), "_getInstance can fall through and return None for an unknown mode")
+
+    # ---------------------------------------------------------------- R7
+    from .common import fresh_per_instance
+    fresh_per_instance(ctx, R, "C09-R7", "Pyro5.server.Daemon", "_pyroInstances", "every daemon in the process would serve 'single' classes from one shared instance table")
+    fresh_per_instance(ctx, R, "C09-R7", "Pyro5.socketutil.SocketConnection", "pyroInstances", "all connections would share one 'session' instance table")
